@@ -22,6 +22,8 @@ func main() {
 		cmdVerify(os.Args[2:])
 	case "check":
 		cmdCheck(os.Args[2:])
+	case "mutant":
+		cmdMutant(os.Args[2:])
 	default:
 		fmt.Fprintln(os.Stderr, "unknown command", os.Args[1])
 		os.Exit(2)
@@ -197,7 +199,3 @@ func cmdVerify(args []string) {
 	}
 }
 
-func cmdCheck(args []string) {
-	fmt.Fprintln(os.Stderr, "check: not implemented yet")
-	os.Exit(2)
-}
